@@ -53,17 +53,20 @@ package tq
 // C15: an action whose advertised expiry is less than five seconds away is
 // never handed out; the caller gets a retriable error instead and asks again.
 //@ func (*Action).IsExpiredWithin
-//@   props C15
+//@   props C15 C02
+//@   modifies fresh
 //@   ensures result0 == ite(a.ExpiresIn == 0, a.ExpiresAt, time_add(a.createdAt, a.ExpiresIn * 1000000000))
 //@   ensures result1 == (result0 != time_zero && time_after(time_add(time_now(), d), result0))
 
 //@ func (ActionSet).Get
-//@   props C15
+//@   props C15 C02
+//@   modifies fresh
 //@   ensures result0 != nil ==> result1 == nil && has(as, rel) && result0 == as[rel]
 //@   ensures result0 != nil ==> !(ite(result0.ExpiresIn == 0, result0.ExpiresAt, time_add(result0.createdAt, result0.ExpiresIn * 1000000000)) != time_zero && time_after(time_add(time_now(), 5000000000), ite(result0.ExpiresIn == 0, result0.ExpiresAt, time_add(result0.createdAt, result0.ExpiresIn * 1000000000))))
 
 //@ func (*Transfer).Rel
-//@   props C15
+//@   props C15 C02
+//@   modifies fresh
 //@   ensures result0 != nil ==> result1 == nil
 //@   ensures result0 != nil ==> !(ite(result0.ExpiresIn == 0, result0.ExpiresAt, time_add(result0.createdAt, result0.ExpiresIn * 1000000000)) != time_zero && time_after(time_add(time_now(), 5000000000), ite(result0.ExpiresIn == 0, result0.ExpiresAt, time_add(result0.createdAt, result0.ExpiresIn * 1000000000))))
 
@@ -75,12 +78,14 @@ package tq
 // there).
 //@ func (*basicDownloadAdapter).download
 //@   props C02 C09
-//@   requires @inv t != nil && dlFile != nil && fpath(dlFile) != t.Path
+//@   requires @inv t != nil && dlFile != nil && t.Path == objpath(t.Oid)
 //@   requires @inv fexists(t.Path) ==> hexsha(fdata(t.Path)) == t.Oid
+//@   requires !isobj(fpath(dlFile))
 //@   requires fromByte >= 0
 //@   requires rrest(iface(dlFile)) == ""
 //@   requires fromByte == 0 ==> fdata(fpath(dlFile)) == ""
 //@   requires fromByte > 0 ==> hash != nil && is_sha256(hash) && wbuf(hash) == fdata(fpath(dlFile))
+//@   modifies fresh, ghost fexists[t.Path], ghost fdata[t.Path], ghost fexists[fpath(dlFile)], ghost fdata[fpath(dlFile)], ghost wbuf, ghost rrest, ghost lastcopy
 //@   ensures result == nil ==> fexists(old(t.Path)) && hexsha(fdata(old(t.Path))) == old(t.Oid)
 //@   ensures result != nil ==> fexists(old(t.Path)) == old(fexists(t.Path)) && fdata(old(t.Path)) == old(fdata(t.Path))
 //@   decreases fromByte
@@ -107,3 +112,32 @@ package tq
 //@   props C02
 //@   modifies fresh
 //@   ensures result != nil && result.Header != nil
+
+// DoTransfer reserves a temp file outside the object store, resumes from a
+// stale partial file if there is one (its bytes are re-hashed first) and then
+// runs download() under its precondition.
+//@ func (*basicDownloadAdapter).DoTransfer
+//@   props C02 C09
+//@   requires @inv t != nil && t.Path == objpath(t.Oid)
+//@   requires @inv fexists(t.Path) ==> hexsha(fdata(t.Path)) == t.Oid
+//@   ensures result == nil ==> fexists(old(t.Path)) && hexsha(fdata(old(t.Path))) == old(t.Oid)
+//@   ensures result != nil ==> fexists(old(t.Path)) == old(fexists(t.Path)) && fdata(old(t.Path)) == old(fdata(t.Path))
+
+// Paths in the "incomplete" area are not object paths (assumed: they are
+// built under <storage>/incomplete or the system temp directory).
+//@ func (*basicDownloadAdapter).tempDir
+//@   assumed
+//@   props C02 C09
+//@   modifies fresh
+//@ func (*basicDownloadAdapter).downloadFilename
+//@   assumed
+//@   props C02 C09
+//@   modifies fresh
+//@   ensures !isobj(result)
+//@ func github.com/git-lfs/git-lfs/v3/tools.TempFile
+//@   assumed
+//@   props C02 C09
+//@   modifies fresh, ghost fpath[result0], ghost fexists[fpath(result0)], ghost fdata[fpath(result0)], ghost rrest[iface(result0)]
+//@   ensures result1 == nil ==> result0 != nil && isfresh(result0) && fexists(fpath(result0))
+//@   ensures !isobj(fpath(result0))
+//@   ensures result1 != nil ==> result0 == nil
